@@ -1,6 +1,8 @@
 import TpmProofs.Lenient
 import TpmProofs.Props.C08V
 import TpmProofs.Modes
+import TpmProofs.MsgOk
+import TpmProofs.Props.AcceptIff
 /-!
 # C08 — the value-only clause: warn mode = the lenient field-by-field interpretation + one warning after each offending field
 
@@ -61,6 +63,43 @@ theorem c08_lenient_only_value_warnings (top : Top) (x : List Byte) (v : Val) (t
     have hnw := runWalker_nw Generated.msgTables.relax top.relax x ke (by rw [h]; exact hmem)
     rw [hw] at hnw
     simp [Event.isMarshal] at hnw
+
+/-! ### what "the lenient interpretation accepts" means, in terms of the specification
+
+Over the relaxed tables acceptance is well-formedness with respect to the *relaxed* specification: every size field equals the
+length of what it governs, every count the number of elements, selectors pick a member, sessions iff the tag says so — and no
+condition on the values. -/
+
+/-- (tables) the relaxed tables meet the side conditions of the soundness theorems -/
+theorem relaxed_tables_wf : Generated.msgTables.relax.wf = true := by decide +kernel
+
+/-- **commands**: the lenient interpretation accepts `x` (and consumes it) iff `x` is a well-formed command of the relaxed specification -/
+theorem c08_lenient_command_iff (x : List Byte) (v : Val) :
+    (∃ s', runWalker true Generated.msgTables.relax .command x = .ok (v, s') ∧ s'.inp = []) ↔
+      ∃ p evs, v = p.toVal ∧ specCommand Generated.msgTables.relax rootPath p = some (x, evs) := by
+  constructor
+  · rintro ⟨s', hw, hinp⟩
+    obtain ⟨p, bs, evs, hv, hspec, hi, _, _, _⟩ := decodeCommand_sound Generated.msgTables.relax relaxed_tables_wf rootPath (initSt x) s' v
+      (by simpa [runWalker] using hw)
+    simp only [initSt, hinp, List.append_nil] at hi
+    exact ⟨p, evs, hv, by rw [hspec, hi]⟩
+  · rintro ⟨p, evs, rfl, h⟩
+    have := decodeCommand_ok Generated.msgTables.relax rootPath p x evs (by decide) h [] 0 [] []
+    exact ⟨_, by simpa [runWalker, initSt] using this, rfl⟩
+
+/-- **responses** (any command code, either flag): likewise -/
+theorem c08_lenient_response_iff (cc : Option Int) (enc : Bool) (x : List Byte) (v : Val) :
+    (∃ s', runWalker true Generated.msgTables.relax (.response cc enc) x = .ok (v, s') ∧ s'.inp = []) ↔
+      ∃ p evs, v = p.toVal ∧ specResponse Generated.msgTables.relax cc enc rootPath p = some (x, evs) := by
+  constructor
+  · rintro ⟨s', hw, hinp⟩
+    obtain ⟨p, bs, evs, hv, hspec, hi, _, _, _⟩ := decodeResponse_sound Generated.msgTables.relax relaxed_tables_wf cc enc rootPath (initSt x) s' v
+      (by simpa [runWalker] using hw)
+    simp only [initSt, hinp, List.append_nil] at hi
+    exact ⟨p, evs, hv, by rw [hspec, hi]⟩
+  · rintro ⟨p, evs, rfl, h⟩
+    have := decodeResponse_ok Generated.msgTables.relax cc enc rootPath p x evs (by decide) h [] 0 [] []
+    exact ⟨_, by simpa [runWalker, initSt] using this, rfl⟩
 
 /-- not vacuous: the lenient interpretation accepts the Startup command whose `startupType` is 0x42 (strict decoding under the
 real tables rejects it), kernel-evaluated -/
